@@ -83,6 +83,9 @@ PollNext(t0) ==
        ELSE IF t2.resAvail THEN [t2 EXCEPT !.resAvail = FALSE, !.last = "complete", !.completes = @ + 1]
        ELSE [t2 EXCEPT !.last = "none", !.ended = TRUE]
 
+\* FusedStream::is_terminated (:198-203): nothing more will ever come out
+Term(t) == t.taskDone /\ t.streamTerm /\ ~t.resAvail
+
 MayPoll == ~Strict \/ s.first \/ s.woken \/ s.last \in {"item", "complete"}
 
 Poll ==
@@ -90,12 +93,12 @@ Poll ==
   /\ LET t == PollNext(s) IN
      /\ s' = [t EXCEPT !.n = s.n + 1]
      /\ hist' = Append(hist, [a |-> "poll", g |-> 0, res |-> t.last, v |-> IF t.last = "item" THEN t.taken ELSE 0,
-                              wokenBefore |-> s.woken, wokenAfter |-> t.woken, ip |-> t.ip])
+                              wokenBefore |-> s.woken, wokenAfter |-> t.woken, ip |-> t.ip, term |-> Term(t)])
 Fire(g) ==
   /\ ~s.dropped /\ s.n < MaxSteps /\ g \notin s.gates
   /\ s' = [s EXCEPT !.gates = @ \cup {g}, !.woken = @ \/ (s.gateW = g), !.gateW = IF @ = g THEN 0 ELSE @, !.n = @ + 1]
   /\ hist' = Append(hist, [a |-> "fire", g |-> g, res |-> "", v |-> 0, wokenBefore |-> s.woken,
-                           wokenAfter |-> s.woken \/ (s.gateW = g), ip |-> s.ip])
+                           wokenAfter |-> s.woken \/ (s.gateW = g), ip |-> s.ip, term |-> Term(s)])
 Next == Poll \/ \E g \in {1, 2} : Fire(g)
 Spec == Init /\ [][Next]_vars
 
@@ -117,7 +120,10 @@ Completion == /\ s.completes <= 1
 \* no lost wake-up: a Pending stream that has not been woken is waiting for the environment (an unfired gate)
 NoLostWakeup == (s.last = "pending" /\ ~s.woken /\ ~s.dropped) =>
                    (~s.taskDone /\ Op(s.prog, s.ip).op = "W" /\ Op(s.prog, s.ip).g \notin s.gates)
-GenInv == Ordered /\ BackPressure /\ Completion /\ NoLostWakeup
+\* a consumer that stops polling once the stream says it is terminated (select!, select_next_some, filter_map
+\* adapters) loses nothing: terminated means the completion has been delivered
+FusedSound == Term(s) => (s.completes = 1 /\ Len(Items) = NYieldsBefore(s.prog, Len(s.prog) + 1))
+GenInv == Ordered /\ BackPressure /\ Completion /\ NoLostWakeup /\ FusedSound
 
 \* liveness under a fair consumer and environment: every program runs to completion
 Finishes == <>(s.ended \/ s.n >= MaxSteps)
